@@ -80,3 +80,49 @@ func VerifH_C13_FTransform(_ int) {
 	}
 	verifapi.Cover(true, "compared")
 }
+
+// VerifH_C13_TransformCompose: the portable composite inverse transforms used by the decoder equal the
+// single-block transform applied to every block they cover - what the assembly versions on amd64/arm64
+// compute unconditionally - for all coefficients and destination samples:
+//   which 0: TransformUV (2x2 chroma blocks, full IDCT each) vs transformOne on each of the four blocks;
+//   which 1: TransformDCUV (DC only) vs TransformDC on each block (a zero DC leaves the block unchanged);
+//   which 2: transformTwo with doTwo vs transformOne twice.
+func VerifH_C13_TransformCompose(which int) {
+	Init()
+	in := make([]int16, 64)
+	for i := range in {
+		in[i] = verifapi.I16("coeff")
+	}
+	a := make([]byte, 8*BPS)
+	for i := range a {
+		a[i] = verifapi.U8("dst")
+	}
+	b := append([]byte(nil), a...)
+	switch which {
+	case 0:
+		TransformUV(in, a)
+		transformOne(in[0:], b[0:])
+		transformOne(in[16:], b[4:])
+		transformOne(in[32:], b[4*BPS:])
+		transformOne(in[48:], b[4*BPS+4:])
+	case 1:
+		for i := range in {
+			if i%16 != 0 {
+				in[i] = 0 // DC-only blocks
+			}
+		}
+		TransformDCUV(in, a)
+		TransformDC(in[0:], b[0:])
+		TransformDC(in[16:], b[4:])
+		TransformDC(in[32:], b[4*BPS:])
+		TransformDC(in[48:], b[4*BPS+4:])
+	case 2:
+		transformTwo(in, a, true)
+		transformOne(in[0:], b[0:])
+		transformOne(in[16:], b[4:])
+	}
+	for i := range a {
+		verifapi.Assert(a[i] == b[i], "composite transform = the single-block transform on every block")
+	}
+	verifapi.Cover(true, "compared")
+}
